@@ -166,6 +166,7 @@ static void one_op(vh_rng* r, struct seq* s, int maxlen, char* opd, size_t opcap
     int64_t v = rand_value(r);
     MKVAL(s, v, x);
     int hi = s->kind == KIND_ARRAY ? s->n : s->n - 1;     /* i == len appends for Array, out of range for List/Tuple */
+    if (hi < 0 && s->kind == KIND_LIST) { hi = 0; vh_count("push_at_0_on_an_empty_list"); }     /* index 0 of an empty List is in range (an empty Tuple refuses it) */
     if (hi < 0) { snprintf(opd, opcap, "skip"); return; }
     int i = vh_chance(r, 25) ? 0 : vh_chance(r, 25) ? hi : (int)vh_below(r, (uint64_t)hi + 1);
     int neg = s->n > 0 && vh_chance(r, 20);
